@@ -571,7 +571,9 @@ def check_C09(ctx):
                     break
                 pos = max(pos, en)
     usable = lexer_check(ctx, dict(max_rules=4, max_depth=3, p_any=0.15), nd, ni, ["counts"], extra=extra)
-    long_inputs(ctx, 20000 if ctx.tier == "quick" else 200000)
+    if not getattr(ctx, "long_done", False):        # once per check, not once per thorough round
+        long_inputs(ctx, 20000 if ctx.tier == "quick" else 200000)
+        ctx.long_done = True
     # release build too (overflow checks off / optimised code)
     if ctx.tier == "thorough":
         lexer_check(ctx, dict(max_rules=4, max_depth=3, p_any=0.15), nd // 4, ni, ["full"], profile="release",
@@ -663,7 +665,9 @@ def check_C15(ctx):
     lexer_check(ctx, dict(max_rules=4, max_depth=2, p_named=0.8, p_fallible=0.3, p_template=0.35,
                           kinds=['inf:sw', 'inf:swret', 'simple', 'simple', 'inf:ret', 'inf:cont', 'skip', 'fal:ret']),
                 nd, ni, ["full"], clone=True)
-    long_clone(ctx, 6000 if ctx.tier == "quick" else 60000)
+    if not getattr(ctx, "long_done", False):
+        long_clone(ctx, 6000 if ctx.tier == "quick" else 60000)
+        ctx.long_done = True
 
 
 def long_clone(ctx, n):
